@@ -6,7 +6,7 @@ KEY_H = "C03:hoisted-walrus-assigned-before-earlier-operands"
 
 def run(ctx: Ctx) -> int:
     n = ctx.pick(120, 1500)
-    nfixed = 9
+    nfixed = 11
     jobs = e4_check.jobs_for(ctx, "c03", n, batch=3, timeout=ctx.pick(240, 1200), total=n + nfixed)
     from lib import e4_corpus
     want = ctx.pick(3, 12)
